@@ -50,13 +50,23 @@ def run(ctx):
             n += 1
             left = node.left
             two_sided = False
+            reduced = False
             if isinstance(left, ast.Call) and src(left.func) in ('abs', 'np.abs', 'np.absolute', 'np.fabs'):
                 two_sided = True
+                # the difference must be taken element by element: a reduction (sum/mean) inside abs lets
+                # positive and negative differences cancel (mole fractions always sum to the same total)
+                for x in ast.walk(left.args[0]) if left.args else []:
+                    if isinstance(x, ast.Call) and (src(x.func).split('.')[-1] in ('sum', 'mean', 'dot', 'prod')):
+                        reduced = True
             if isinstance(left, ast.BinOp) and isinstance(left.op, ast.Pow):
                 two_sided = True
             what = src(left)
             tag = 'T' if re.search(r'\b_T\b|\bT\b', what) and 'z_mol' not in what else 'z'
-            if two_sided:
+            if two_sided and reduced:
+                d1.fail('LLE.__call__', 'reduced-before-abs-' + tag,
+                        'the reuse test "%s" reduces the differences (sum/mean) before taking the absolute value: differences of opposite sign cancel, '
+                        'for normalised compositions the test is always true' % src(node), f, node)
+            elif two_sided:
                 d1.ok('LLE.__call__', 'reuse test |%s| < %s is two-sided' % (what, src(node.comparators[0])), f, node)
             else:
                 d1.fail('LLE.__call__', 'one-sided-' + tag,
